@@ -98,7 +98,7 @@ def compose(ops, protocol=True):
     return lines, recs, table, False
 
 
-def run_script(drv, bdir, ops, want_emu, keep=None):
+def run_script(drv, bdir, ops, want_emu, keep=None, shim=None):
     """Execute one op list; returns dict(execution=[records], problems=[...],
     emu=EmuRun|None, script=lines)."""
     d = core.mkscratch("rt")
@@ -108,8 +108,10 @@ def run_script(drv, bdir, ops, want_emu, keep=None):
         lp = os.path.join(d, "log")
         open(sp, "w").write("\n".join(lines) + "\n")
         td = os.path.join(d, "ovni")
-        rc, out, err = core.run([drv, sp, lp], timeout=120,
-                                env={"OVNI_TRACEDIR": td}, cwd=d)
+        env = {"OVNI_TRACEDIR": td}
+        if shim:
+            env.update({"LD_PRELOAD": shim, "VERIF_SHORTWRITE": "4096"})
+        rc, out, err = core.run([drv, sp, lp], timeout=120, env=env, cwd=d)
         log = [json.loads(l) for l in open(lp)] if os.path.exists(lp) else []
         problems = []
         execution = []
@@ -299,11 +301,17 @@ def main(pid, tier):
                            "refusal_boundary": len(extra)}
     want_emu = (pid == "C02")
 
-    def one(ops):
-        return run_script(drv, bdir, ops, want_emu)
+    # every third script runs under truthful short writes (write() transfers ~40% of large requests):
+    # the full-write loop of the runtime must still put every byte on disk
+    shim = core.cc_shim(bdir)
+
+    def one(x):
+        k, ops = x
+        return run_script(drv, bdir, ops, want_emu, shim=shim if k % 3 == 1 else None)
 
     ck.phase('generate')
-    results = core.pmap(one, scripts, workers=core.NCPU)
+    results = core.pmap(one, list(enumerate(scripts)), workers=core.NCPU)
+    ck.notes["scripts"]["under_short_writes"] = len([k for k in range(len(scripts)) if k % 3 == 1])
     ck.phase('replay')
     executions = [r_["execution"] for r_ in results]
     tvr = tv.validate("RtStreamTrace", "RtStreamTrace.cfg", executions, {"op": "reset"},
